@@ -997,6 +997,27 @@ func NilErrEdgesOf(calls ...ssa.CallInstruction) func(b *ssa.BasicBlock, succ in
 	})
 }
 
+// NilErrEdgesOfStrict is NilErrEdgesOf, except that a variable which may also hold an explicitly assigned
+// nil (`err = nil` after the call) does not count: only the call's own result (or the zero value of a
+// variable not yet assigned) establishes "the call returned nil".
+func NilErrEdgesOfStrict(calls ...ssa.CallInstruction) func(b *ssa.BasicBlock, succ int) bool {
+	set := map[ssa.CallInstruction]int{}
+	for _, c := range calls {
+		set[c] = ErrResultIndex(c.Common().Signature())
+	}
+	return CutEdgesWhere(func(a Atom) bool {
+		if a.Op != "nil" {
+			return false
+		}
+		for _, o := range Origins(a.V) {
+			if o != nil && isNilConst(o) {
+				return false
+			}
+		}
+		return OriginsAllFromCall(a.V, set, true)
+	})
+}
+
 // Calls lists the call instructions of fn (not of nested literals) satisfying pred.
 func Calls(fn *ssa.Function, pred func(c ssa.CallInstruction) bool) []ssa.CallInstruction {
 	var out []ssa.CallInstruction
